@@ -28,6 +28,10 @@ def run(ctx):
     from ..sampler_rules import rule_T11
     rule_T11(ctx)      # every unoccupied shell is removed when exploration ends
     rule_T3(ctx, view=True)
+    # the view is a pure recomputation: update_shell_info assigns EVERY statistic of the shell on
+    # every path (a shell with no sample in view must not keep the n_eff of the other view)
+    from ..sampler_rules import rule_U1
+    rule_U1(ctx)
     from ..pathrules import rule_T5
     rule_T5(ctx)      # the loop of run() ends only when every shell has its minimum (success predicate)
     rule_T4(ctx)
